@@ -41,21 +41,28 @@ Theorem bounded_steps :
 Proof. exact CapsProofs.bounded_steps. Qed.
 Print Assumptions bounded_steps.
 
-(* the PE resource walk (levels from the generated rsrc_max_level, no memory of
-   visited directories): work bounded by a polynomial of degree 4 in the
-   number of entries per directory ... *)
+(* the PE resource walk (levels from the generated rsrc_max_level /
+   rsrc_deepest_level, no memory of visited directories): directories parsed
+   and entries iterated are bounded by a polynomial of degree 2 resp. 3 in the
+   number of entries per directory; the leaves kept are additionally capped by
+   MAX_PE_RESOURCES (collect-to-cap, bounded_steps) ... *)
 Theorem rsrc_walk_bounded : forall g E, (forall d, length (g d) <= E) -> forall root,
-  rsrc_dirs_parsed g root <= 1 + E + E ^ 2 + E ^ 3 /\
-  rsrc_entries_iterated g root <= E * (1 + E + E ^ 2 + E ^ 3).
+  rsrc_dirs_parsed g root <= 1 + E + E ^ 2 /\
+  rsrc_entries_iterated g root <= E * (1 + E + E ^ 2).
 Proof. exact CapsProofs.rsrc_walk_bounded. Qed.
 Print Assumptions rsrc_walk_bounded.
 
-(* ... and that bound is REACHED by two directories of e entries each that
-   point back at the second one: the walk is not linear in the input size
-   ("bounded by a modest function of the input size" is refuted for the model;
-   replayed on the implementation by the harness) *)
-Theorem rsrc_walk_superlinear : forall e,
-  rsrc_dirs_parsed (bomb e) 0 = 1 + e + e ^ 2 + e ^ 3 /\
-  rsrc_entries_iterated (bomb e) 0 = e * (1 + e + e ^ 2 + e ^ 3).
-Proof. exact CapsProofs.rsrc_walk_superlinear. Qed.
-Print Assumptions rsrc_walk_superlinear.
+(* ... no directory is dequeued at a level whose entries are all skipped (the
+   repaired defect: level-3 directories used to be queued and parsed) ... *)
+Theorem rsrc_no_wasted_level : rsrc_deepest_level <= rsrc_max_level.
+Proof. exact CapsProofs.rsrc_no_wasted_level. Qed.
+Print Assumptions rsrc_no_wasted_level.
+
+(* ... and the bound is exact for two directories of e entries that point back
+   at the second one: the walk remains cubic in a 16-bit count, see the
+   measured times in checks/C11.py *)
+Theorem rsrc_walk_bound_reached : forall e,
+  rsrc_dirs_parsed (bomb e) 0 = 1 + e + e ^ 2 /\
+  rsrc_entries_iterated (bomb e) 0 = e * (1 + e + e ^ 2).
+Proof. exact CapsProofs.rsrc_walk_bound_reached. Qed.
+Print Assumptions rsrc_walk_bound_reached.
